@@ -168,6 +168,50 @@ def _mutations(case, valid, rnd, layout):
     return out
 
 
+def _jpeg_field_edits(valid, rnd):
+    """Targeted edits of JPEG header fields: frame dimensions / precision / component count
+    in the SOFn segment, segment lengths, early EOI."""
+    out = []
+    i = 2
+    segs = []
+    while i + 4 <= len(valid) and valid[i] == 0xFF:
+        marker = valid[i + 1]
+        if marker in (0xD8, 0x01) or 0xD0 <= marker <= 0xD7:
+            i += 2
+            continue
+        length = struct.unpack(">H", valid[i + 2:i + 4])[0]
+        segs.append((marker, i, length))
+        if marker == 0xDA:
+            break
+        i += 2 + length
+    for marker, pos, length in segs:
+        b = bytearray(valid)
+        for newlen in (0, 1, 2, length - 1, length + 1, 65535):
+            struct.pack_into(">H", b, pos + 2, newlen & 0xFFFF)
+            out.append((f"jpegfield:len{marker:02x}", bytes(b)))
+        if marker in (0xC0, 0xC1, 0xC2):
+            prec, h, w, nc = struct.unpack(">BHHB", valid[pos + 4:pos + 10])
+            for hh, ww in ((0, 0), (1, 1), (65535, 65535), (32767, 32767), (16384, 16384),
+                           (h, w * 2), (h * 2, w), (w, h), (h, 65535), (65535, w),
+                           (h + 1, w), (h, w + 1), (46341, 46341)):
+                b = bytearray(valid)
+                struct.pack_into(">HH", b, pos + 5, hh & 0xFFFF, ww & 0xFFFF)
+                out.append(("jpegfield:dims", bytes(b)))
+            for pr in (0, 1, 12, 16, 255):
+                b = bytearray(valid)
+                b[pos + 4] = pr
+                out.append(("jpegfield:precision", bytes(b)))
+            for n in (0, 1, 2, 3, 4, 255):
+                b = bytearray(valid)
+                b[pos + 9] = n
+                out.append(("jpegfield:ncomp", bytes(b)))
+        if marker == 0xDA:
+            b = bytearray(valid)
+            cut = rnd.randrange(pos, len(valid))
+            out.append(("jpegfield:early-eoi", bytes(b[:cut]) + b"\xff\xd9"))
+    return out
+
+
 def _jpeg_extra(case, rnd, np):
     """Well-formed images that are NOT valid chunks: wrong mode, wrong size, other formats."""
     import PIL.Image
@@ -229,6 +273,7 @@ def run_case(case):
     muts = _mutations(case, valid, rnd, layout)
     if case["enc"] == "jpeg":
         muts += _jpeg_extra(case, rnd, np)
+        muts += _jpeg_field_edits(valid, rnd)
     obs = {"decodes": 0, "outcomes": {}, "mutation_kinds": {}, "encodings": {case["enc"]: 1},
            "oracle_valid": 0, "accepted_malformed": 0}
     v = []
@@ -331,6 +376,8 @@ def gates(obs, tier):
         "format_errors_observed": oc.get("IFE", 0) > 1000,
         "accepted_results_observed": oc.get("ok", 0) > 200,
         "field_edits_applied": sum(n for k, n in mk.items() if k.startswith("field:")) > 500,
+        "jpeg_header_field_edits": sum(n for k, n in mk.items()
+                                       if k.startswith("jpegfield:")) > 500,
         "truncations_applied": mk.get("truncate", 0) > 1000,
         "validity_oracle_positive": obs.get("oracle_valid", 0) > 200,
     }
